@@ -40,6 +40,9 @@ structure Var where
   alt   : List Char
   cls   : VCls
   ids   : List Nat          -- ids of the GVF records it stands for (2 for a merged pair)
+  /-- first position at which the record counts as touching a Sec codon: `start` in general,
+  `start + 1` for an alternative-splicing Deletion (its first base is kept) -/
+  touch : Nat := start
   deriving Repr, Inhabited, DecidableEq
 
 structure TxIn where
@@ -67,7 +70,7 @@ start codon (`to_end_inclusion`): the anchor base moves to the right end. -/
 def toEndInclusion (seq : List Char) (v : Var) : Var :=
   match seq[v.stop]? with
   | none => v
-  | some c => { v with start := v.start + 1, stop := v.stop + 1,
+  | some c => { v with start := v.start + 1, stop := v.stop + 1, touch := v.touch + 1,
                        ref := v.ref.drop 1 ++ [c], alt := v.alt.drop 1 ++ [c] }
 
 /-- The records the statement's "supplied variants" ranges over for transcript `t`:
@@ -87,7 +90,7 @@ def sameMergeCls (a b : Var) : Bool := a.cls != .other && a.cls == b.cls
 def mergedPairs (vs : List Var) : List Var :=
   vs.flatMap fun a => (vs.filter fun b => a.stop == b.start && sameMergeCls a b).map fun b =>
     { start := a.start, stop := b.stop, ref := a.ref ++ b.ref, alt := a.alt ++ b.alt,
-      cls := .other, ids := a.ids ++ b.ids }
+      cls := .other, ids := a.ids ++ b.ids, touch := a.touch }
 
 def insertByStart (v : Var) : List Var → List Var
   | [] => [v]
@@ -128,7 +131,7 @@ def secAfter (sec : List Nat) (h : List Var) : List Nat :=
   sec.filterMap fun s =>
     -- convention of the command (and of its brute-force twin): a Sec codon is read as U
     -- only if NO record's location — anchor base included — overlaps it
-    let touches := h.any fun v => v.start < s + 3 && s < v.stop
+    let touches := h.any fun v => v.touch < s + 3 && s < v.stop
     if touches then none
     else
       let shift : Int := h.foldl (fun acc v =>
